@@ -40,7 +40,7 @@ CHECKS = {
                 "in float16/32/64, for 4..53 bits and classic or generated ranges; codes are compared as Python integers against [0, 2^bits-1], sortedness "
                 "and saturation; the 4..12-bit x 4-range grid is enumerated completely on every run. Exploration plus a small exhaustive grid.",
         "design_ref": "DESIGN.md section 3, C16",
-        "note": "NaN not in the domain. Known finding K3 (bits >= 54) excluded from the main generator and probed separately. Part 'large_frames': frames of 0.7..1.1 million pixels through all three converters.",
+        "note": "NaN not in the domain. Known finding K3 (bits >= 54) excluded from the main generator and probed separately. Part 'large_frames': frames of 0.7..1.1 million pixels through all three converters. The large-frame part also uses Fortran-ordered and transposed frames.",
     },
     "C17": {
         "technique": "metamorphic property-based testing: generated partitions of one exposure interval over generated pipelines of the library's deterministic flux-integrating models; partition-vs-single-readout and interval-scaling relations",
@@ -82,7 +82,7 @@ CHECKS = {
                 "container are compared field by field. A file made from detector X is loaded by the load_detector model at a generated pipeline position of a running detector Y; "
                 "the detector after the run and the returned result must hold X's data. Exploration.",
         "design_ref": "DESIGN.md section 3, C18",
-        "note": "HDF5 skipped (h5py absent; counted). Containers compared by emptiness, shape, dtype kind and exact values. The data tree includes groups without variables (coordinates only, attributes only, empty leaf); group existence and attributes are compared. The model part also compares the /data and /scene groups of the returned result with the file.",
+        "note": "HDF5 skipped (h5py absent; counted). Containers compared by emptiness, shape, dtype kind and exact values. The data tree includes groups without variables (coordinates only, attributes only, empty leaf); group existence and attributes are compared. The model part also compares the /data and /scene groups of the returned result with the file. Multi-wavelength photons use increasing, decreasing and shuffled wavelength axes.",
     },
     "C12": {
         "technique": "exhaustive field x value-class x path acceptance grid (differential between constructor, YAML, setter, Processor.set and sweep against the documented range table) plus property-based testing of generated whole configuration documents (YAML vs Python construction differential)",
@@ -90,7 +90,7 @@ CHECKS = {
                 "Generated documents (4 detector types, exposure/observation, schedules in 12 renderings, numpy-expression parameter values, probe pipelines with arbitrary arguments, permuted keys) are loaded "
                 "and every attribute is compared with the document; running the loaded objects must equal running Python-built objects. All documents with 0 or >=2 modes/detectors must be refused.",
         "design_ref": "DESIGN.md section 3, C12",
-        "note": "Range table transcribed from docstrings and error messages. Calibration documents are exercised by C10/C11. A refused change through attribute, key or sweep must leave the long-lived object exactly as it was.",
+        "note": "Range table transcribed from docstrings and error messages. Calibration documents are exercised by C10/C11. A refused change through attribute, key or sweep must leave the long-lived object exactly as it was. For nan the check asserts only that every path gives the constructor's verdict (finding F39, fixed).",
     },
     "C08": {
         "technique": "property-based testing: keys enumerated from generated processors (valid) and derived by mutation (invalid); full-settings snapshot before/after each assignment; harness's own literal-denotation parser as reference; every entry point exercised for invalid keys",
@@ -98,7 +98,7 @@ CHECKS = {
                 "the snapshot of all settings must change in exactly that key to the value the text literally denotes, get/has must agree. Mutated keys must be refused by Processor.set, "
                 "sequential and dask observations (product/sequential), and run_mode overrides before any probe model runs and without inventing attributes; sweeping an argument of a disabled model must raise. Exploration.",
         "design_ref": "DESIGN.md section 3, C08",
-        "note": "Ambiguous textual spellings (quotes, blanks, hex, True/None) are not generated. Calibration entry point for invalid keys is exercised in C10. Part 'nested': keys inside mapping- / list-of-mappings-valued arguments over a generated history of set / replace / create_new_processor / deepcopy on a pool of processors (finding F35, fixed). The nested part also issues misspelt nested keys, which set / replace must refuse.",
+        "note": "Ambiguous textual spellings (quotes, blanks, hex, True/None) are not generated. Calibration entry point for invalid keys is exercised in C10. Part 'nested': keys inside mapping- / list-of-mappings-valued arguments over a generated history of set / replace / create_new_processor / deepcopy on a pool of processors (finding F35, fixed). The nested part also issues misspelt nested keys, which set / replace must refuse. List values draw explicit zero elements (falsy but valid).",
     },
     "C05": {
         "technique": "property-based testing: generated parameter spaces (product / sequential / custom, scalar and vector parameters, colliding names, numpy expressions, disabled parameters) against itertools reference enumerators; echo probes encode received values so that label-based selection is checkable",
@@ -106,7 +106,7 @@ CHECKS = {
                 "the reference space and, for each reference run, the result entry selected by that run's labels must hold that run's encoding. Custom tables are generated in txt/csv/npy with "
                 "surrounding columns and optional column_range. Exploration.",
         "design_ref": "DESIGN.md section 3, C05",
-        "note": "Known finding K1 (sequential mode + dask + >=2 parameters) is excluded from the generator and probed separately. The dask path's single metadata run is subtracted. Part 'rerun': the same Observation object is run again after other values were configured on detector / pipeline. An enumerated part gives value lists as short numpy expressions denoting 21..25 values; the spaces also contain a text-valued argument and an entry inside a mapping-valued argument.",
+        "note": "Known finding K1 (sequential mode + dask + >=2 parameters) is excluded from the generator and probed separately. The dask path's single metadata run is subtracted. Part 'rerun': the same Observation object is run again after other values were configured on detector / pipeline. An enumerated part gives value lists as short numpy expressions denoting 21..25 values; the spaces also contain a text-valued argument and an entry inside a mapping-valued argument. Two expressions of tiny magnitudes (1e-16..1e-10) are enumerated.",
     },
     "C06": {
         "technique": "differential property-based testing: each run of a generated sweep against a standalone exposure the harness builds from the JSON spec; deep structural before/after snapshots of the caller's objects; pipelines with state-keeping, argument-mutating and failing models",
@@ -131,7 +131,7 @@ CHECKS = {
                 "directories and a plain file with the next candidate names; the clock inside pyxel.outputs is replaced so that timestamps are equal or increasing as generated, and groups of starts run concurrently in "
                 "threads. Each start must get a fresh distinct folder, nothing pre-existing may change, every reported file must exist, sit in its run's folder and (fits/npy) equal the labelled bucket, counts must match. Exploration.",
         "design_ref": "DESIGN.md section 3, C19",
-        "note": "The fake clock is installed from outside (attribute of pyxel.outputs.outputs) in the check's own process; no source hook. jpg: existence only. Part 'legacy_exposure': auto-numbered per-readout files of pyxel.exposure_mode for 1..14 readouts. A quarter of the starts first load a raw unsigned 16-bit FITS frame with include_header (its scaling keywords end up on the detector).",
+        "note": "The fake clock is installed from outside (attribute of pyxel.outputs.outputs) in the check's own process; no source hook. jpg: existence only. Part 'legacy_exposure': auto-numbered per-readout files of pyxel.exposure_mode for 1..14 readouts. A quarter of the starts first load a raw unsigned 16-bit FITS frame with include_header (its scaling keywords end up on the detector). Part 'legacy_observation': per-run files of pyxel.observation_mode, sequentially and under a thread pool with data-dependent delays.",
     },
     "C10": {
         "technique": "property-based testing against a reference model of the decision-vector <-> parameter mapping (bounds, log10 / 10** conversion, slicing) at the pygmo-problem level, plus box / applied-values invariants over the evaluation log of real calibration runs",
@@ -139,7 +139,7 @@ CHECKS = {
                 "receives for decision vectors in the box and at its corners are compared with the harness's reference; short sade / sga / nlopt runs (1..2 islands, topologies, seeds) must keep every evaluation and "
                 "every reported champion / best decision inside the declared box, report parameters == convert(decision), report champions that were really evaluated, and leave the caller's objects unchanged. Exploration.",
         "design_ref": "DESIGN.md section 3, C10",
-        "note": "The problem object is built exactly as Calibration.run_calibration builds it. Synchronous dask scheduler (schedulers are C07's subject). Half of the run cases run the same objects a second time; the champions' returned data is compared with the probe's analytic frame for the reported parameters (finding F34, fixed). A third of the vector variables are declared with a tuple of placeholders (Python API).",
+        "note": "The problem object is built exactly as Calibration.run_calibration builds it. Synchronous dask scheduler (schedulers are C07's subject). Half of the run cases run the same objects a second time; the champions' returned data is compared with the probe's analytic frame for the reported parameters (finding F34, fixed). A third of the vector variables are declared with a tuple of placeholders (Python API). Vector variables may have exactly one placeholder.",
     },
     "C11": {
         "technique": "property-based testing against a numpy re-implementation of the three fitness functions on analytically recomputed simulated data; accept/reject classification of generated fit-range pairs; re-simulation differential of reported champions in real runs",
